@@ -37,6 +37,12 @@ Proof.
   intros X A compute eff Hd Hf. exact (run_refines_spec gen_inv X A compute eff Hd Hf gen_inventory_ok).
 Qed.
 
+(* the third clause on its own: no observer (method of ParquetFile, or function of api.py / core.py that receives the handle or
+   objects reached from it) mutates in place an object it got from the handle - the model's observers are not assumed pure *)
+Theorem gen_observers_do_not_write :
+  forallb (fun p => match snd p with [] => true | _ => false end) (inv_obs_writes gen_inv) = true.
+Proof. vm_compute. reflexivity. Qed.
+
 (* what a selection inherits is computed from preserved components only *)
 Theorem gen_inherited_deps_preserved :
   forallb (fun a => forallb (fun c => mem c (inv_preserved gen_inv)) (deps gen_inv a))
